@@ -1,11 +1,65 @@
 (* C09 — the height-map equals a brute-force scan of the voxel grid.  Statements
-   only (filled from Render/HeightmapSem.v). *)
-From Coq Require Import List Arith.
-From LF Require Import Render.Heightmap.
+   only.  [inside i j k] is the sign of the expression at the centre of voxel
+   (i,j,k); [classify] is the interval evaluator, only assumed sound
+   ([classify_sound]: a view classified Filled has every voxel centre inside, Empty
+   none — properties C02 and C05); depths are z indices (voxel centres increase
+   with the index), None = minus infinity. *)
+From Coq Require Import List Arith Permutation.
+From LF Require Import Render.Heightmap Render.HeightmapSem.
 
-(* splitting never creates or loses voxels (counted) — superseded by split_partitions *)
-Theorem C09_split_sizes_example :
-  let v := {| cx := 0; cy := 0; cz := 0; sx := 5; sy := 3; sz := 1 |} in
-  voxels (fst (split true true true v)) + voxels (snd (split true true true v)) = voxels v.
-Proof. reflexivity. Qed.
-Print Assumptions C09_split_sizes_example.
+(* splitting a view partitions its voxels exactly, for every axis mask *)
+Theorem C09_split_partitions : forall (mx my mz : bool) (v : view),
+  let lo := fst (split mx my mz v) in
+  let hi := snd (split mx my mz v) in
+  let a := pick_axis mx my mz v in
+  (forall i j k, in_view v i j k <-> in_view lo i j k \/ in_view hi i j k) /\
+  (forall i j k, ~ (in_view lo i j k /\ in_view hi i j k)) /\
+  voxels lo + voxels hi = voxels v /\
+  (2 <= axis_size a v ->
+     1 <= axis_size a lo < axis_size a v /\ 1 <= axis_size a hi < axis_size a v /\
+     (1 <= voxels v -> 1 <= voxels lo < voxels v /\ 1 <= voxels hi < voxels v)) /\
+  (mx = true -> sx v <= axis_size a v) /\
+  (my = true -> sy v <= axis_size a v) /\
+  (mz = true -> sz v <= axis_size a v).
+Proof. exact split_partitions. Qed.
+
+(* rendering a view leaves every pixel at the maximum of its old depth and the
+   topmost inside voxel of its column: exactly the brute-force scan, whatever the
+   (sound) interval oracle answers and however blocks get skipped, filled or split *)
+Theorem C09_recurse_eq_brute :
+  forall (inside : nat -> nat -> nat -> bool) (classify : view -> cls) (limit : nat),
+    classify_sound inside classify -> 1 <= limit ->
+    forall (fuel : nat) (v : view) (im : image),
+      sx v + sy v + sz v <= fuel + 2 ->
+      forall i j, in_xy v i j ->
+        recurse inside classify fuel limit v im i j = omax (im i j) (brute inside v i j).
+Proof. exact recurse_eq_brute. Qed.
+
+(* the whole render: any worker count, any order of the per-worker regions *)
+Theorem C09_render_eq_brute :
+  forall inside classify (limit fuel pfuel workers : nat) (root : view) (vs : list view),
+    classify_sound inside classify -> 1 <= limit ->
+    sx root + sy root + sz root <= fuel + 2 ->
+    Permutation (partition pfuel workers (root :: nil)) vs ->
+    forall i j,
+      (in_xy root i j ->
+         render_list inside classify fuel limit vs (fun _ _ => None) i j = brute inside root i j) /\
+      (~ in_xy root i j ->
+         render_list inside classify fuel limit vs (fun _ _ => None) i j = None).
+Proof. exact render_partition_eq_brute. Qed.
+
+Theorem C09_workers_independent :
+  forall inside classify (limit fuel pf1 pf2 w1 w2 : nat) (root : view) (vs1 vs2 : list view),
+    classify_sound inside classify -> 1 <= limit ->
+    sx root + sy root + sz root <= fuel + 2 ->
+    Permutation (partition pf1 w1 (root :: nil)) vs1 ->
+    Permutation (partition pf2 w2 (root :: nil)) vs2 ->
+    forall i j,
+      render_list inside classify fuel limit vs1 (fun _ _ => None) i j =
+      render_list inside classify fuel limit vs2 (fun _ _ => None) i j.
+Proof. exact render_workers_independent. Qed.
+
+Print Assumptions C09_split_partitions.
+Print Assumptions C09_recurse_eq_brute.
+Print Assumptions C09_render_eq_brute.
+Print Assumptions C09_workers_independent.
